@@ -59,7 +59,9 @@ def domain_size(t, cap=1 << 20):
         d = domain_size(t[1], cap)
         n = 0
         for i in range(1 << t[2]):
-            n = min(cap, n + d ** i)
+            n = min(cap, n + min(cap, d ** min(i, 64)))
+            if n >= cap and d > 1:
+                break
         return n
     raise ValueError(t)
 
@@ -79,11 +81,16 @@ def all_values(t):
     if k == "T":
         return [("t", tuple(c)) for c in itertools.product(*[all_values(x) for x in t[1]])]
     if k == "A":
-        return [("a", t[1], tuple(c)) for c in itertools.product(*[all_values(t[1])] * t[2])]
+        if t[2] == 0:
+            return [("a", t[1], ())]          # do not enumerate the element type: [[u8; 5]; 0] has one value
+        ev = all_values(t[1])
+        return [("a", t[1], tuple(c)) for c in itertools.product(*[ev] * t[2])]
     if k == "L":
-        out = []
-        for n in range(1 << t[2]):
-            out += [("li", t[1], t[2], tuple(c)) for c in itertools.product(*[all_values(t[1])] * n)]
+        out = [("li", t[1], t[2], ())]
+        if (1 << t[2]) > 1:
+            ev = all_values(t[1])
+            for n in range(1, 1 << t[2]):
+                out += [("li", t[1], t[2], tuple(c)) for c in itertools.product(*[ev] * n)]
         return out
     raise ValueError(t)
 
